@@ -156,15 +156,36 @@ Qed.
 Lemma uint_codes_nonnil u : u <> Decimal.Nil -> is_nil (uint_codes u) = false.
 Proof. destruct u; [contradiction| | | | | | | | | |]; reflexivity. Qed.
 
+Lemma drop_ws_id s : forallb (fun c => negb (is_ws c)) s = true -> drop_ws s = s.
+Proof.
+  destruct s as [|c s]; [reflexivity|]. cbn [forallb drop_ws]. rewrite andb_true_iff, negb_true_iff.
+  intros [-> _]. reflexivity.
+Qed.
+
+Lemma py_strip_id s : forallb (fun c => negb (is_ws c)) s = true -> py_strip s = s.
+Proof.
+  intros H. unfold py_strip. rewrite (drop_ws_id s H). rewrite drop_ws_id; [apply rev_involutive|].
+  apply forallb_forall. intros c Hc. apply in_rev in Hc. rewrite forallb_forall in H. apply H. assumption.
+Qed.
+
+Lemma digits_not_ws s : all_digits s = true -> forallb (fun c => negb (is_ws c)) s = true.
+Proof.
+  unfold all_digits. rewrite !forallb_forall. intros H c Hc. specialize (H c Hc). unfold is_digit in H. unfold is_ws.
+  apply negb_true_iff. apply orb_false_iff. split; [apply Z.eqb_neq; lia|]. apply andb_false_iff. right. lia.
+Qed.
+
 Lemma parse_decimal_str_of_Z z : parse_decimal (str_of_Z z) = Some (inject_Z z).
 Proof.
   unfold str_of_Z, Z.to_int. destruct z as [|p|p].
   - reflexivity.
-  - unfold parse_decimal. rewrite strip_sign_digits by apply uint_codes_digits.
+  - unfold parse_decimal. rewrite py_strip_id by (apply digits_not_ws, uint_codes_digits).
+    rewrite strip_sign_digits by apply uint_codes_digits.
     rewrite split_digits by apply uint_codes_digits.
     rewrite uint_codes_nonnil by apply Unsigned.to_uint_nonnil. rewrite uint_codes_digits. cbn [negb andb].
     rewrite dv_0, Unsigned.of_to. reflexivity.
-  - unfold parse_decimal. cbn [strip_sign].
+  - unfold parse_decimal.
+    rewrite py_strip_id by (cbn [forallb]; rewrite digits_not_ws by apply uint_codes_digits; reflexivity).
+    cbn [strip_sign].
     rewrite split_digits by apply uint_codes_digits.
     rewrite uint_codes_nonnil by apply Unsigned.to_uint_nonnil. rewrite uint_codes_digits. cbn [negb andb].
     rewrite dv_0, Unsigned.of_to. reflexivity.
